@@ -52,6 +52,11 @@ func ruleCases(missing, aDir, aFile string) []rcase {
 		s("eq=2", "a", "it should equal 2 str-length", "a"),
 		s("eq=2", int64(3), "it should equal 2 num-size", "3"),
 		s("noeq=1", "a", "it is not equal 1 str-length", "a"),
+		// kinds eq has no measure for (round 13): the default wording is not specified, a custom message is the message
+		s("eq=1", true, "\x00oserr", "true"),
+		{"eq=3", rv([2]int{1, 2}), "\x00oserr", "\x00", true},
+		{"eq=1", rv(map[string]int{"a": 1, "b": 2}), "\x00oserr", "\x00", true},
+		{"eq=1", rv(struct{ A, B int }{1, 2}), "\x00oserr", "\x00", true},
 		s("in=(a/b)", "c", "it should in (a/b)", "c"),
 		s("in=(1/2)", int(3), "it should in (1/2)", "3"),
 		s("include=(a)", "b", "it should include (a)", "b"),
